@@ -90,13 +90,15 @@ Steps(st, op, D) ==
                THEN {FailOn(st, IF st.ctx = "nodb" THEN "nodb" ELSE "nosc", op.cur)} ELSE {})
     [] op.k = "close" -> LET s2 == [st EXCEPT !.open = FALSE, !.tx = FALSE, !.pend = 0] IN {R(s2, Obs("ok", s2))}
     [] op.k = "after" ->     \* any use of a closed connection; an execute on the main cursor resets (or sets) its sqlstate
-         IF op.w = "execute" THEN {R(s2, Obs("closed", s2)) : s2 \in {[st EXCEPT !.ss = x] : x \in {NONE, "08003"}}}
+         IF op.w \in {"execute", "execute_nop"} THEN {R(s2, Obs("closed", s2)) : s2 \in {[st EXCEPT !.ss = x] : x \in {NONE, "08003"}}}
          ELSE {R(st, Obs("closed", st))}
 
 \* ---- vocabulary ----
 Ops(st) ==
   IF ~st.made THEN [k : {"connect"}, ctx : {"full", "nosc", "nodb"}]
-  ELSE IF ~st.open THEN [k : {"after"}, w : {"execute", "cursor_execute", "commit", "rollback", "execute_string"}]
+  \* (execute_nop / cursor_execute_nop: a statement the instance's nop_regexes answer without running it - the connection is
+  \*  closed all the same)
+  ELSE IF ~st.open THEN [k : {"after"}, w : {"execute", "cursor_execute", "commit", "rollback", "execute_string", "execute_nop", "cursor_execute_nop"}]
   ELSE (IF st.ctx = "full" /\ st.rows + st.pend < 2 THEN [k : {"good"}, w : {"ins"}] ELSE {})
        \cup (IF st.ctx = "full" THEN [k : {"good"}, w : {"sel", "describe"}] ELSE {})
        \cup [k : {"good"}, w : (IF st.tx THEN {"commit", "rollback"} ELSE {"begin"}) \cup {"setvar", "unsetvar", "nopcall"}]
